@@ -20,7 +20,11 @@ def apply_patch(patch_text, read):
         if line.startswith("+++ b/"):
             cur = line[6:].strip(); hunks[cur] = []
         elif line.startswith("@@") and cur:
-            hunks[cur].append([])
+            try:
+                start = int(line.split()[1].split(",")[0].lstrip("-"))
+            except Exception:
+                start = 0
+            hunks[cur].append(["@%d" % start])
         elif cur and hunks[cur] and (line[:1] in " +-" or line == ""):
             if line.startswith("--- ") or line.startswith("diff "):
                 continue
@@ -29,13 +33,19 @@ def apply_patch(patch_text, read):
             cur = None
     for rel, hs in hunks.items():
         src = read(rel).split("\n")
+        shift = 0
         for h in hs:
+            start = int(h[0][1:]) if h and h[0].startswith("@") else 0
+            h = h[1:] if h and h[0].startswith("@") else h
             old = [l[1:] for l in h if l[0] in " -"]
             new = [l[1:] for l in h if l[0] in " +"]
             pos = [i for i in range(len(src) - len(old) + 1) if src[i:i + len(old)] == old]
-            if len(pos) != 1:
-                raise ValueError("hunk matches %d places in %s" % (len(pos), rel))
-            src[pos[0]:pos[0] + len(old)] = new
+            if not pos:
+                raise ValueError("hunk matches 0 places in %s" % rel)
+            # several identical contexts (sibling functions): take the one nearest to the hunk's line number
+            best = min(pos, key=lambda i: abs(i - (start - 1 + shift)))
+            src[best:best + len(old)] = new
+            shift += len(new) - len(old)
         out[rel] = "\n".join(src)
     return out
 
